@@ -867,6 +867,12 @@ func (t *wordMatchTree) matches(cp *contentProvider, cost int, known map[matchTr
 
 		startBoundary := relStartOffset < len(data) && (relStartOffset == 0 || !characterClass(data[relStartOffset-1]))
 		endBoundary := relEndOffset > 0 && (relEndOffset == len(data) || !characterClass(data[relEndOffset]))
+		if !startBoundary || !endBoundary {
+			// A rejected occurrence may overlap a valid one, e.g. \ba-a\b in
+			// "xa-a-a": only step past its first byte.
+			offset = relStartOffset + 1
+			continue
+		}
 		if startBoundary && endBoundary {
 			found = append(found, &candidateMatch{
 				byteOffset:  uint32(offset + idx),
